@@ -87,8 +87,8 @@ theorem adds_relations {len : Int} {ops : List Op} {r : Rec} (hadd : AddsOnly op
   refine ⟨fun x => ⟨fun hx => ?_, ?_⟩, fun x => ⟨fun hx => ?_, ?_⟩, fun x => ⟨fun hx => ?_, ?_⟩⟩
   · obtain ⟨g, hg, d, hl, e⟩ := inv.membersSound x hx; exact ⟨g, hg, d, hl.mono hback, e⟩
   · rintro ⟨g, hg, d, hl, rfl⟩; exact inv.membersComplete g hg d hl
-  · obtain ⟨g, hg, d, hl, hd, e⟩ := inv.defsSound x hx; exact ⟨g, hg, d, hl.mono hback, hd, e⟩
-  · rintro ⟨g, hg, d, hl, hd, rfl⟩; exact inv.defsComplete g hg d hl hd
+  · obtain ⟨g, hg, d, hl, hd, e⟩ := inv.defsSound trivial x hx; exact ⟨g, hg, d, hl.mono hback, hd, e⟩
+  · rintro ⟨g, hg, d, hl, hd, rfl⟩; exact inv.defsComplete trivial g hg d hl hd
   · obtain ⟨g, hg, d, s, hl, e⟩ := inv.sectionsSound x hx; exact ⟨g, hg, d, s, hl.mono hback, e⟩
   · rintro ⟨g, hg, d, s, hl, rfl⟩; exact inv.sectionsComplete g hg d s hl
 
